@@ -45,8 +45,8 @@ def e2e_oracle(hist, records):
 
 
 def prog_stream(ctx):
-    """Priority marks on functions without a source file (tasks=[…]) and on functions wrapped by a functools.wraps decorator
-    below the mark. Oracle from the declared marks only: both marks ⇒ exit 3 and nothing executed; otherwise every try_first
+    """Priority marks on functions without a source file (tasks=[…]), on decorator stacks (marks, @task and a functools.wraps
+    wrapper in every order) in task modules, and on the same stacks inside a task generator. Oracle from the declared marks only: both marks ⇒ exit 3 and nothing executed; otherwise every try_first
     task runs before every unmarked one and every try_last task after all others (the tasks are independent)."""
     import json
     import shutil
@@ -54,16 +54,27 @@ def prog_stream(ctx):
     from concurrent.futures import ThreadPoolExecutor
     import common
     rng = ctx.rng
+    plain = [{"name": f"task_plain{i}", "marks": []} for i in range(5)]
     cases = [{"kind": "pathless", "tasks": [{"name": "task_both", "marks": ["try_first", "try_last"]}, {"name": "task_plain", "marks": []}]},
-             {"kind": "wrapped", "tasks": [{"name": "task_both", "marks": ["try_last", "try_first"], "wrap": True}]}]
-    for _ in range(ctx.scale(10, 80)):
-        kind = rng.choice(["pathless", "wrapped"])
+             {"kind": "wrapped", "tasks": [{"name": "task_both", "marks": ["try_last", "try_first"], "wrap": True}]},
+             # corpus (F35, F36): a generated task with both marks; a mark between @task and a wrapper
+             {"kind": "generated", "tasks": [{"name": "task_both", "marks": ["try_first", "try_last"], "task_at": "top"},
+                                             {"name": "task_ok", "marks": [], "task_at": "top"}]},
+             {"kind": "wrapped", "tasks": plain + [{"name": "task_z", "marks": ["try_first"], "wrap": True, "task_at": "top"}]},
+             {"kind": "wrapped", "tasks": [{"name": "task_a", "marks": ["try_last"], "wrap": True, "task_at": "top"}] + plain}]
+    for _ in range(ctx.scale(24, 160)):
+        kind = rng.choice(["pathless", "wrapped", "wrapped", "generated"])
         tasks = []
         for i in range(rng.randint(3, 7)):
             marks = rng.choice([[], [], ["try_first"], ["try_last"], ["try_first"], ["try_last"]])
             if rng.random() < 0.04:
                 marks = ["try_first", "try_last"]
-            tasks.append({"name": f"task_p{i}{rng.choice('abxyz')}", "marks": list(marks), "wrap": kind == "wrapped" and rng.random() < 0.6})
+            t = {"name": f"task_p{i}{rng.choice('abxyz')}", "marks": list(marks), "wrap": kind != "pathless" and rng.random() < 0.6}
+            if kind == "generated":
+                t["task_at"] = rng.choice(["top", "mid", "bottom"])      # tasks of a generator need @task
+            elif rng.random() < 0.5:
+                t["task_at"] = rng.choice(["top", "mid", "bottom"])
+            tasks.append(t)
         cases.append({"kind": kind, "tasks": tasks})
     worker = str(common.VERIF / "harness" / "impl" / "prio_prog_worker.py")
 
@@ -87,6 +98,12 @@ def prog_stream(ctx):
         ctx.dist["prog:" + c["kind"]] += 1
         if str(res.get("raised") or "").startswith("worker:"):
             raise common.InfraError(f"C19 prog worker failed: {res['raised']}")
+        if both and c["kind"] == "generated":
+            # the graph is only known while the build runs: rejected = the build does not end OK and the task never runs
+            if res.get("raised") or res.get("exit") == 0 or set(both) & set(res.get("executed") or []):
+                ctx.violation(f"reject: generated task(s) {both} carry try_first and try_last: expected the build to reject them (exit != 0, not executed), "
+                              f"got exit {res.get('exit')} raised={res.get('raised')} executed={res.get('executed')}", {"layer": "prog", "case": c})
+            continue
         if both:
             if res.get("raised") or res.get("exit") != 3 or res.get("executed"):
                 ctx.violation(f"reject: task(s) {both} carry try_first and try_last ({c['kind']}): expected collection failure (exit 3, nothing executed), "
@@ -95,7 +112,7 @@ def prog_stream(ctx):
         if res.get("raised") or res.get("exit") != 0:
             ctx.violation(f"prog: build of independent marked tasks ({c['kind']}) raised / exit {res.get('exit')} {res.get('raised')}", {"layer": "prog", "case": c})
             continue
-        if res.get("collected") != len(c["tasks"]) or sorted(res["executed"]) != sorted(t["name"] for t in c["tasks"]):
+        if res.get("collected") != len(c["tasks"]) + (c["kind"] == "generated") or sorted(res["executed"]) != sorted(t["name"] for t in c["tasks"]):
             ctx.violation(f"prog: {len(c['tasks'])} marked task functions were handed to pytask ({c['kind']}) but {res.get('collected')} were collected "
                           f"and {res['executed']} executed (exit 0): a task was silently dropped", {"layer": "prog", "case": c})
             continue
